@@ -266,6 +266,8 @@ Inductive fkind :=
 | FVar16              (* u16 length + bytes: PingPayload, ErrorData, OpaqueReason, … *)
 | FBool               (* 1 byte; ReadElement sets true only for 1: normalising *)
 | FFeat               (* RawFeatureVector: u16 length + bytes, re-encoded minimally *)
+| FVar16Max (m : N)   (* DeliveryAddress: u16 length, rejected when > m, then the bytes *)
+| FArr16 (n : nat)    (* []Sig: u16 count, then count elements of n raw bytes each *)
 | FRest               (* ExtraOpaqueData read with io.ReadAll: all remaining bytes *)
 | FTlvRest.           (* ExtraOpaqueData + ValidateTLV (DecodeP2P with no known records) *)
 
@@ -306,6 +308,9 @@ Section Fields.
     | FBool, VN x => x <=? 1
     | FFeat, VB b => wf_bytesb b && (blen b <=? 65535) &&
                      (match b with 0 :: _ => false | _ => true end)
+    | FVar16Max m, VB b => wf_bytesb b && (blen b <=? m) && (blen b <=? 65535)
+    | FArr16 n, VB b => wf_bytesb b && negb (Nat.eqb n 0) &&
+                        (blen b mod N.of_nat n =? 0) && (blen b / N.of_nat n <=? 65535)
     | FRest, VB b => wf_bytesb b
     | FTlvRest, VB b => wf_bytesb b && tlv_valid b
     | _, _ => false
@@ -319,6 +324,9 @@ Section Fields.
     | FVar16, VB b => if blen b <=? 65535 then Some (be_enc 2 (blen b) ++ b) else None
     | FBool, VN x => Some [if x =? 0 then 0 else 1]
     | FFeat, VB b => if blen b <=? 65535 then Some (be_enc 2 (blen b) ++ b) else None
+    | FVar16Max _, VB b => if blen b <=? 65535 then Some (be_enc 2 (blen b) ++ b) else None
+    | FArr16 n, VB b =>
+      if blen b / N.of_nat n <=? 65535 then Some (be_enc 2 (blen b / N.of_nat n) ++ b) else None
     | FRest, VB b => Some b
     | FTlvRest, VB b => Some b
     | _, _ => None
@@ -351,6 +359,23 @@ Section Fields.
       | Some (l, r) =>
         match take l r with Some (h, r') => Some (VB (strip0 h), r') | None => None end
       | None => None
+      end
+    | FVar16Max m =>
+      match read_be 2 b with
+      | Some (l, r) =>
+        if m <? l then None else
+        match take l r with Some (h, r') => Some (VB h, r') | None => None end
+      | None => None
+      end
+    | FArr16 n =>
+      match n with
+      | O => None
+      | _ =>
+        match read_be 2 b with
+        | Some (c, r) =>
+          match take (c * N.of_nat n) r with Some (h, r') => Some (VB h, r') | None => None end
+        | None => None
+        end
       end
     | FRest => Some (VB b, [])
     | FTlvRest => if tlv_valid b then Some (VB b, []) else None
